@@ -96,14 +96,17 @@ func checkCurrentNamespaceHasRelation(current *namespace, relation item) typeChe
 	}
 }
 
-func checkAllRelationsTypesHaveRelation(current *namespace, relationType item, relation string) typeCheck {
+func checkAllRelationsTypesHaveRelation(current *namespace, relationType item, relation item) typeCheck {
 	namespace := current.Name
 	return func(p *parser) {
 		recursiveCheckAllRelationsTypesHaveRelation(p, relationType, namespace, relationType.Val, relation, tupleToSubjectSetTypeCheckMaxDepth)
 	}
 }
 
-func recursiveCheckAllRelationsTypesHaveRelation(p *parser, item item, namespace string, relationType string, relation string, depth int) {
+// item is the traversed relation, relationItem the relation looked up on its
+// types; an error points at the one that is not declared.
+func recursiveCheckAllRelationsTypesHaveRelation(p *parser, item item, namespace string, relationType string, relationItem item, depth int) {
+	relation := relationItem.Val
 	if depth < 0 {
 		p.addErr(item, "could not typecheck deeply nested SubjectSet further")
 		return
@@ -117,14 +120,14 @@ func recursiveCheckAllRelationsTypesHaveRelation(p *parser, item item, namespace
 	for _, t := range r.Types {
 		if t.Relation == "" {
 			if _, ok := p.query().findRelation(t.Namespace, relation); !ok {
-				p.addErr(item, "relation %q was not declared in namespace %q",
+				p.addErr(relationItem, "relation %q was not declared in namespace %q",
 					relation, t.Namespace)
 			}
 		} else {
 			// Type is a subject set, we need to recursively check if the type has
 			// the required relation.
 			recursiveCheckAllRelationsTypesHaveRelation(
-				p, item, t.Namespace, t.Relation, relation, depth-1)
+				p, item, t.Namespace, t.Relation, relationItem, depth-1)
 		}
 	}
 }
